@@ -23,7 +23,7 @@ SITES = {
         "before the ServerHello hook)",
 }
 # base pairs that must be REFUSED on a perfect network (the hook names another cipher suite than the server chose)
-EXPECT_REFUSED = ("base:hook-swaps-cipher-suite",)
+EXPECT_REFUSED = ("base:hook-swaps-cipher-suite", "base:hook-rewrites-session-id-resumed")
 
 
 def key_of(c):
@@ -74,7 +74,7 @@ def run(chk):
     for c in cases:
         if c["gen"] in EXPECT_REFUSED:
             if not c["mask"] and c11lib.both_ok(c) and not c11lib.monitor_hook(c):
-                chk.broken("base pair %s establishes although the hook named another cipher suite" % c["gen"],
+                chk.broken("base pair %s establishes although the hook named another cipher suite / renamed a resumed session" % c["gen"],
                            json.dumps(c11lib.slim_case(c))[:3000])
             continue
         if c["gen"].startswith("base:") and not c["mask"] and not c11lib.both_ok(c):
@@ -136,11 +136,13 @@ def run(chk):
         chk.broken("proof obligation Properties/C01.v no longer checks (%s)" % where, pout)
     chk.finish(
         level="proof",
-        rule="real client+server handshakes in a synctest bubble over a scripted faulty network: 17 base pairs (certificate, "
+        rule="real client+server handshakes in a synctest bubble over a scripted faulty network: 19 base pairs (certificate, "
              "client authentication ECDSA/Ed25519, RSA, PSK with/without hint, ECDHE-PSK, resumed certificate/PSK, DTLS 1.3 "
              "with/without client authentication and cookie, dual-stack client against 1.3, dual-stack against dual-stack, 1.2 "
              "client against dual-stack; a server ServerHello message hook that appends ALPN / rewrites ALPN / names "
-             "another cipher suite - the last must be refused; a user-supplied cipher suite 0xFFFE on both sides; "
+             "another cipher suite - the last must be refused - / rewrites the session id (both sides name the session alike "
+             "and the next connection over the same stores resumes; refused on a resumption); a user-supplied cipher "
+             "suite 0xFFFE on both sides; "
              "CID+SRTP+MKI+ALPN on) x every "
              "single fault (drop/dup/hold:1/hold:3) on the first datagrams, plus generated compatible pairs x sampled masks; "
              "on every association both sides report as established: version, suite, 3 exporters, mirrored CIDs, RRC, ALPN, "
